@@ -134,6 +134,7 @@ type formatParams struct {
 	NumTypes      int  // number of entries in the post-header length table
 	Checksum      bool // CRC32 on every event
 	TableID4      bool // 4-byte table ids (post-header length 6 for table map / rows v1)
+	PadBits       int  // unused bits of the last bitmap byte set to 1: 0 never, 1 row NULL bitmaps, 2 + columns-present bitmaps, 3 + table-map nullability bitmap
 }
 
 // postHeaderLen returns the realistic post-header length for an event type.
@@ -267,18 +268,26 @@ func tableMapBody(f formatParams, tableID uint64, flags uint16, db, name string,
 	b = append(b, types...)
 	b = lenenc(b, uint64(len(meta)))
 	b = append(b, meta...)
-	b = append(b, packBits(nullable)...)
+	b = append(b, packBitsPad(nullable, f.PadBits >= 3)...)
 	b = append(b, optional...)
 	return b
 }
 
 // packBits packs booleans LSB first, (n+7)/8 bytes.
-func packBits(bits []bool) []byte {
+func packBits(bits []bool) []byte { return packBitsPad(bits, false) }
+
+// packBitsPad: the unused bits of the last byte are zero or (ones) all set. The
+// server's row packer starts every NULL byte from 0xff, so set padding bits are
+// what a real binlog holds; nothing may depend on them either way.
+func packBitsPad(bits []bool, ones bool) []byte {
 	out := make([]byte, (len(bits)+7)/8)
 	for i, v := range bits {
 		if v {
 			out[i/8] |= 1 << (uint(i) & 7)
 		}
+	}
+	if ones && len(bits)%8 != 0 {
+		out[len(out)-1] |= byte(0xff << (uint(len(bits)) & 7))
 	}
 	return out
 }
@@ -299,7 +308,7 @@ func rowsBodyHeader(f formatParams, v2 bool, tableID uint64, flags uint16, extra
 	}
 	b = lenenc(b, uint64(ncols))
 	for _, bm := range bitmaps {
-		b = append(b, packBits(bm)...)
+		b = append(b, packBitsPad(bm, f.PadBits >= 2)...)
 	}
 	return b
 }
